@@ -129,6 +129,8 @@ def run(ctx, run):
     _reset_complete(ctx, run)
     _frame_gate(ctx, run)
     _frame_walk_complete(ctx, run)
+    _crc_table_complete(ctx, run)
+    _filter_keys_unmodified(ctx, run)
     from .. import sweep
     sweep.run(ctx, run, [IDL, PFC], {}, 15)
 
@@ -684,3 +686,69 @@ def _frame_walk_complete(ctx, run):
         else:
             run.holds("RF-CORR", key, "the line loop is left only through its own condition: every line of the frame is fed",
                       "%s:%d" % (f.file, f.line))
+
+
+def _crc_table_complete(ctx, run):
+    """RF-INIT: the IDL format A CRC is computed through a 256 entry table indexed with a data
+    byte xor the running CRC - any of the 256 values.  init_crc16_table() fills table[i] for i
+    over exactly 0 ... 255 (interval of the index at the store): an entry left at zero makes valid
+    packets fail their CRC (about one in eight) and lets some damaged ones pass."""
+    P = ctx.prog
+    f = P.need("init_crc16_table", IDL)
+    run.touch(f)
+    an = ctx.analysis(f)
+    pn = f.params[0]["name"]
+    n = 0
+    lo, hi = None, None
+    for bid, i in flow.all_events(f):
+        for lhs, var, op, rhs in flow.stores(f, i):
+            if lhs is None:
+                continue
+            l = f.exprs[ex.skip(f, lhs)]
+            if l["k"] == "idx" and f.exprs[ex.skip(f, l["c"][0])].get("name") == pn:
+                n += 1
+                st = an.state_before_expr(i)
+                v = an.eval(st, l["c"][1]) if st is not None else (None, None)
+                lo = v[0] if lo is None else min(lo, v[0]) if v[0] is not None else None
+                hi = v[1] if hi is None else max(hi, v[1]) if v[1] is not None else None
+                site = i
+    if not n:
+        raise AnalysisBroken("init_crc16_table: no store into the table")
+    key = "RF-INIT:init_crc16_table:all-256-entries"
+    if lo == 0 and hi == 255:
+        run.holds("RF-INIT", key, "table[i] is stored for i in [0, 255]", ex.loc(f, site))
+    else:
+        run.violation("RF-INIT", key, "init_crc16_table() stores table[i] for i in [%s, %s] only; the CRC is looked up with any byte "
+                      "value 0 ... 255, so the entries left out stay zero: valid packets that hit them are rejected and flagged as "
+                      "data loss, damaged ones can pass" % (lo, hi), ex.loc(f, site), witness={"index": [lo, hi]})
+
+
+def _filter_keys_unmodified(ctx, run):
+    """RF-CORR: the PFC demultiplexer delivers the blocks of the page and stream it was opened
+    for; the page header carries a 4 bit stream number.  _vbi_pfc_demux_init() stores the
+    caller's pgno and stream as they are - a masked or otherwise narrowed copy makes a
+    demultiplexer opened for stream 9 deliver stream 1 and never its own."""
+    P = ctx.prog
+    f = P.need("_vbi_pfc_demux_init", PFC)
+    run.touch(f)
+    params = {p["name"] for p in f.params}
+    n = 0
+    for bid, i in flow.all_events(f):
+        for lhs, var, op, rhs in flow.stores(f, i):
+            if lhs is None or rhs is None or op != "=":
+                continue
+            l = f.exprs[ex.skip(f, lhs)]
+            if not (l["k"] == "mem" and l["member"] in ("stream", "pgno") and l.get("in") == "vbi_pfc_block"):
+                continue
+            n += 1
+            r = f.exprs[ex.skip(f, rhs)]
+            while r["k"] == "cast":
+                r = f.exprs[ex.skip(f, r["c"][0])]
+            key = "RF-CORR:_vbi_pfc_demux_init:%s-as-given" % l["member"]
+            if r["k"] == "ref" and r.get("name") in params:
+                run.holds("RF-CORR", key, "`%s` stores the caller's value unmodified" % ex.pretty(f, i)[:50], ex.loc(f, i))
+            else:
+                run.violation("RF-CORR", key, "`%s` does not store the caller's %s as given: the filter then selects another %s "
+                              "than the one the demultiplexer was opened for (blocks of a foreign stream are delivered, the "
+                              "selected one never)" % (ex.pretty(f, i)[:50], l["member"], l["member"]), ex.loc(f, i))
+    run.floor("filter keys stored by _vbi_pfc_demux_init", n, 2)
